@@ -345,7 +345,7 @@ def _stack_eq(a, b):
 def _op_path(opc, lens, rest, altdepth):
     """one symbolic stack; run the real opcode function and the oracle; compare"""
     opm = loader.load("op")
-    base = [bytes([0xA0 + i, i]) for i in range(rest)]
+    base = [bytes([0xA0 + i % 64, i % 256]) for i in range(rest)]
     syms = [SBytes.sym(f"e{i}", n) if n else b"" for i, n in enumerate(lens)]
     stack0 = base + syms
     alt0 = [bytes([0xB0 + i]) for i in range(altdepth)]
@@ -409,6 +409,19 @@ def ob_opcode(opc, maxlen, extra_depth):
     m = merge_runs(runs)
     m["sample"] = sample
     m["inconclusive"] = [x for x in m["inconclusive"] if "no assertion" not in x]
+    return m
+
+
+def ob_opcode_sizes(opc, sizes):
+    """SIZE on elements / DEPTH on stacks whose length crosses the 1- and 2-byte boundaries of the number encoding (0x7f/0x80, 0xff/0x100)"""
+    runs = []
+    for n in sizes:
+        if opc == 130:
+            runs.append(sym_run(lambda: _op_path(130, (n,), 0, 0), timeout_ms=30000))
+        else:
+            runs.append(sym_run(lambda: _op_path(116, (), n, 0), timeout_ms=30000))
+    m = merge_runs(runs)
+    m["sample"] = {"opcode": opc, "element length" if opc == 130 else "stack depth": list(sizes)}
     return m
 
 
@@ -936,6 +949,9 @@ def obligations(tier):
     for opc in SIMPLE_OPS:
         obs.append(Ob("O2-opcode", ob_opcode, {"opc": opc, "maxlen": 4 if (not q or opc not in (165,)) else 3, "extra_depth": 2 if q else 3},
                       replay="opcode", budget_s=900))
+    szs = (5, 75, 76, 127, 128, 129, 255, 256, 520) if q else tuple(range(5, 132)) + (254, 255, 256, 257, 300, 519, 520)
+    obs.append(Ob("O2-opcode-sizes", ob_opcode_sizes, {"opc": 130, "sizes": szs}, replay="opcode", budget_s=900))
+    obs.append(Ob("O2-opcode-sizes", ob_opcode_sizes, {"opc": 116, "sizes": szs if q else szs + (1000,)}, replay="opcode", budget_s=900))
     for opc in (121, 122):
         obs.append(Ob("O2-pickroll", ob_pickroll, {"opc": opc, "maxdepth": 4 if q else 7, "maxn": 2 if q else 4}, replay="opcode"))
     obs.append(Ob("O3-conditionals", ob_conditionals, {"maxlen": 5 if q else 7, "clens": (0, 1, 2) if q else (0, 1, 2, 3)}, replay="cond",
